@@ -150,8 +150,10 @@ Theorem C18_head_empty_body : forall cfg cl i a ex, rs_body (call cfg cl i a tru
 Proof. exact call_head. Qed.
 Print Assumptions C18_head_empty_body.
 
+(* a body-less class answers with an empty body (unless the application assigned a body to the instance
+   after construction: that is an explicitly supplied body, next theorem) *)
 Theorem C18_bodyless_class_empty_body : forall cfg cl i a hd ex,
-  c_empty cl = true -> rs_body (call cfg cl i a hd ex) = Some [].
+  c_empty cl = true -> (ex = None \/ ex = Some []) -> rs_body (call cfg cl i a hd ex) = Some [].
 Proof. exact call_bodyless. Qed.
 Print Assumptions C18_bodyless_class_empty_body.
 
@@ -162,7 +164,7 @@ Proof. exact bodyless_classes. Qed.
 Print Assumptions C18_bodyless_classes.
 
 Theorem C18_explicit_body_as_is : forall cfg cl i a b,
-  c_empty cl = false -> b <> [] -> rs_body (call cfg cl i a false (Some b)) = Some b.
+  b <> [] -> rs_body (call cfg cl i a false (Some b)) = Some b.
 Proof. exact call_explicit. Qed.
 Print Assumptions C18_explicit_body_as_is.
 
